@@ -6,7 +6,7 @@
 //         (export-ns "<name>" <target>) (export-all <target>) (export-default "<name>") (export-default-iface <decl>)
 //   target: "<file name>" | none (specifier that does not resolve)
 //   names inside types: N | A.B.N | import(<file>).A.N | import(?).N
-import { A, Atom, head, isAtom } from "./sx.mjs";
+import { A, Atom, head, isAtom, show } from "./sx.mjs";
 import { tsOf, tsOfDecl } from "./mode_prog.mjs";
 
 const LIBS = ["lib.ts", "types/a.ts", "types_a.ts", "b.d.ts", "c.tsx", "dir/index.ts", "types/deep/d.ts"];   // types/a.ts and types_a.ts: file names that only differ in the separator
@@ -363,15 +363,32 @@ export function genWatch(rng, p) {
     }
     files.push([A("file"), name, ...vars]);
   }
+  // a file that does not exist when the session starts (its variant 0 is the marker ABSENT: the host has no such file
+  // and resolves no import to it; for the model an absent file declares nothing) and is created by its first update
+  let late = null;
+  if (files.length > 1 && rng.chance(1, 3)) {
+    // … chosen among the files no other file re-exports from (`export { X } from "./missing"` next to an `export *` that
+    // also provides X falls through to the star in beff, where TypeScript reports the missing module: the model reads an
+    // absent file as an empty one, which is right for imports only)
+    const reexported = new Set();
+    for (const ft of fileTerms) for (const st of ft.slice(2)) if (["export-from", "export-all", "export-ns"].includes(head(st))) reexported.add(show(st[st.length - 1]).replace(/^"|"$/g, ""));
+    const cands = files.filter((f) => f[1] !== "entry.ts" && !reexported.has(f[1]));
+    if (cands.length) {
+      late = rng.pick(cands);
+      late.splice(2, 0, [A("var"), "@@ABSENT@@", [A("src")]]);
+    }
+  }
   const ops = [];
   const n = 3 + rng.below(10);
+  const pickVar = (f) => (f === late ? 1 + rng.below(f.length - 3) : rng.below(f.length - 2));
   for (let i = 0; i < n; i++) {
     if (rng.chance(1, 3)) ops.push([A("r")]);
-    else { const f = rng.pick(files); ops.push([A("u"), f[1], A(String(rng.below(f.length - 2)))]); }
+    else { const f = rng.pick(files); ops.push([A("u"), f[1], A(String(pickVar(f)))]); }
   }
+  if (late) { ops.splice(1 + rng.below(ops.length), 0, [A("u"), late[1], A("1")], [A("r")]); ops.unshift([A("r")]); }
   ops.push([A("r")]);
   // a common end game: repair everything, rebuild
-  if (rng.chance(1, 2)) { for (const f of files) if (rng.chance(2, 3)) ops.push([A("u"), f[1], A(String(rng.below(2)))]); ops.push([A("r")]); }
+  if (rng.chance(1, 2)) { for (const f of files) if (rng.chance(2, 3)) ops.push([A("u"), f[1], A(String(f === late ? 1 + rng.below(2) : rng.below(2)))]); ops.push([A("r")]); }
   return [[A("files"), ...files], [A("ops"), ...ops]];
 }
 
